@@ -49,7 +49,9 @@ SPECS = [
     ("secp256k1_fe_mul_int_unchecked", "fe_mul_int"),
     ("secp256k1_fe_add", "fe_add"),
 ]
-PROPS = {"C05"}
+# C05 is the home of the arithmetic; C01 / C02 quantify their signature equations "on every build configuration" and
+# consist of nothing but this arithmetic, so a wrong product in a portable configuration breaks them as well
+PROPS_ALL = {"C05", "C01", "C02"}
 
 
 def _scalar_layout(prog):
@@ -409,6 +411,7 @@ def obligations(prog):
         if f is None or not f.blocks:
             raise AnalysisBroken("R-LIMB: kernel %s not found" % fname)
         oid = "R-LIMB:%s:%s" % (fname, knd)
+        PROPS = PROPS_ALL if knd != "fe_weak_m32" else {"C05"}     # the magnitude-32 edge of the contract is C05's quantifier
         text = "%s computes its specification for every input its contract admits (%s)" % (fname, knd)
         if any(kind(el.e) == "asm" for el in f.elems()):
             obs.append(Obligation("R-LIMB", oid, f.loc, fname, text, True, "NOT DECIDED: inline assembly in this configuration", props=PROPS))
